@@ -271,6 +271,31 @@ func TestC20Registry(t *testing.T) {
 		if late != 0 {
 			rep.Violate("datadog:polls-after-stop", fmt.Sprintf("%d gauge polls after Stop", late), nil)
 		}
+		// Stop terminates the poller whatever the poller is doing: with a slow gauge (each poll outlasts the period) Start/Stop cycles return promptly
+		mr2, err2 := ddreg.NewMetricRegistry(pc.LocalAddr().String(), "vp2", time.Millisecond)
+		if err2 == nil {
+			mr2.RegisterGauge("slow", func() (float64, bool) { time.Sleep(3 * time.Millisecond); return 1, true })
+			stuck := ""
+			for cyc := 0; cyc < 6 && stuck == ""; cyc++ {
+				done := make(chan struct{})
+				go func() {
+					mr2.Start()
+					time.Sleep(10 * time.Millisecond)
+					mr2.Stop()
+					close(done)
+				}()
+				select {
+				case <-done:
+				case <-time.After(4 * time.Second):
+					stuck = fmt.Sprintf("cycle %d: Start; 10 ms; Stop did not return within 4 s (gauge poll 3 ms, period 1 ms)", cyc)
+				}
+				rep.Evaluations++
+			}
+			rep.Distinct("datadog-stop-under-slow-poll", "")
+			if stuck != "" {
+				rep.Violate("datadog:stop-does-not-terminate", stuck, map[string]interface{}{"component": "datadog-registry"})
+			}
+		}
 		time.Sleep(50 * time.Millisecond)
 		if atomic.LoadInt64(&gaugeLines) == 0 || atomic.LoadInt64(&distLines) == 0 {
 			rep.Notes = append(rep.Notes, fmt.Sprintf("datadog: statsd lines seen on loopback: gauge %d distribution %d", gaugeLines, distLines))
